@@ -293,6 +293,9 @@ func VerifC11Kernel() {
 	otherWant := []byte{opv1.OpJump, 0, 0, 0, 6, opv1.OpPop, opv1.OpPop, opv1.OpPop, opv1.OpPop}
 	v1bc := &ugo.Bytecode{FileSet: base.FileSet}
 	ctx := verifrt.Choice("ctx", 3)
+	if sel := verifrt.Param("ctxsel"); sel > 0 {
+		verifrt.Assume(ctx == sel-1) // thorough tier: one job per context
+	}
 	switch ctx {
 	case 0:
 		v1bc.Main = cf
